@@ -415,7 +415,8 @@ fn run_stream(id: &str, lines: &[String], out: &mut String) {
     use crossbeam_channel::unbounded;
     let (p_tx, p_rx) = unbounded::<BddNode>(); // producer -> harness
     let (r_in_tx, r_in_rx) = unbounded::<BddNode>(); // harness -> relay
-    let (r_out_tx, r_out_rx) = unbounded::<BddNode>(); // relay -> harness
+    let (r_out_tx, r_out_rx0) = unbounded::<BddNode>(); // relay -> harness
+    let mut r_out_rx = Some(r_out_rx0); // "dropdown" drops it: whatever listens behind the relay has gone away
     let (c_in_tx, c_in_rx) = unbounded::<BddNode>(); // harness -> receiver
     let mut producer = Bdd::with_sender(p_tx);
     let mut relay = Bdd::with_sender_receiver(r_out_tx, r_in_rx);
@@ -448,10 +449,15 @@ fn run_stream(id: &str, lines: &[String], out: &mut String) {
             }
             "pump2" => {
                 for _ in 0..w[1].parse::<usize>().unwrap() {
-                    if let Ok(n) = r_out_rx.try_recv() {
-                        c_in_tx.send(n).unwrap();
+                    if let Some(rx) = &r_out_rx {
+                        if let Ok(n) = rx.try_recv() {
+                            c_in_tx.send(n).unwrap();
+                        }
                     }
                 }
+            }
+            "dropdown" => {
+                r_out_rx = None;
             }
             "poll1" => {
                 let f = relay.recv(Term(w[1].parse().unwrap()));
